@@ -7,7 +7,7 @@
    statement the class is refuted by witness and the theorem is proved on its complement (_partial).
    T_len_only: two views with the same bytes within the length (any capacities) give equal results.
    Only statements, each closed by [exact]; generated layout, proofs in Proofs/Views*.v. *)
-From PV Require Import Model.ViewsShow Spec.Views Proofs.ViewsBase Proofs.Views Proofs.Views2 Proofs.Views3 Proofs.Views4 Proofs.ViewsLen.
+From PV Require Import Model.ViewsShow Spec.Views Proofs.ViewsBase Proofs.Views5 Proofs.Views Proofs.Views2 Proofs.Views3 Proofs.Views4 Proofs.ViewsLen.
 Open Scope N_scope.
 
 Theorem C01_ARP_getters_safe : forall v, wf v -> bytes_ok (arr v) ->
@@ -64,11 +64,11 @@ Theorem C01_HBH_getters_safe : forall v, wf v -> bytes_ok (arr v) ->
   HBH_IsValid v = Ok true -> getters_ok [] HBH_getters v.
 Proof. exact HBH_safe. Qed.
 Print Assumptions C01_HBH_getters_safe.
-Theorem C01_HBH_len_only : forall v v', wf v -> wf v' -> bytes_ok (arr v) -> bytes_ok (arr v') ->
+Theorem C01_HBH_len_only_partial : forall v v', wf v -> wf v' -> bytes_ok (arr v) -> bytes_ok (arr v') ->
   HBH_IsValid v = Ok true -> HBH_IsValid v' = Ok true -> view v = view v' ->
-  getters_len_only [] HBH_getters HBH_specs v v'.
+  getters_len_only HBH_findings_C02 HBH_getters HBH_specs v v'.
 Proof. exact HBH_len_only. Qed.
-Print Assumptions C01_HBH_len_only.
+Print Assumptions C01_HBH_len_only_partial.
 
 Theorem C01_ICMP_getters_safe : forall v, wf v -> bytes_ok (arr v) ->
   ICMP_IsValid v = Ok true -> getters_ok [] ICMP_getters v.
@@ -299,3 +299,92 @@ Example C01_R4_nonvacuous : wf ex_r4 /\ bytes_ok (arr ex_r4) /\ R4_IsValid ex_r4
   R4_Addrs ex_r4 = Ok (VL [VR 8 4; VR 24 4]).
 Proof. exact R4_valid_ex. Qed.
 Print Assumptions C01_R4_nonvacuous.
+
+(* ---- round 2 ---- *)
+(* validity itself depends only on the bytes within the length: IsValid of a view equals IsValid of the same
+   bytes without spare capacity ([restrict v] = of_bytes (view v)); hence two views with the same bytes are both
+   valid or both invalid whatever their capacities (Proofs/Views5.valid_len_only) *)
+Theorem C01_ARP_valid_len_only : forall v, wf v -> ARP_IsValid v = ARP_IsValid (restrict v).
+Proof. exact ARP_valid_restrict. Qed.
+Print Assumptions C01_ARP_valid_len_only.
+Theorem C01_DHCP4_valid_len_only : forall v, wf v -> DHCP4_IsValid v = DHCP4_IsValid (restrict v).
+Proof. exact DHCP4_valid_restrict. Qed.
+Print Assumptions C01_DHCP4_valid_len_only.
+Theorem C01_DNS_valid_len_only : forall v, wf v -> DNS_IsValid v = DNS_IsValid (restrict v).
+Proof. exact DNS_valid_restrict. Qed.
+Print Assumptions C01_DNS_valid_len_only.
+Theorem C01_Ether_valid_len_only : forall v, wf v -> Ether_IsValid v = Ether_IsValid (restrict v).
+Proof. exact Ether_valid_restrict. Qed.
+Print Assumptions C01_Ether_valid_len_only.
+Theorem C01_Pause_valid_len_only : forall v, wf v -> Pause_IsValid v = Pause_IsValid (restrict v).
+Proof. exact Pause_valid_restrict. Qed.
+Print Assumptions C01_Pause_valid_len_only.
+Theorem C01_HBH_valid_len_only : forall v, wf v -> HBH_IsValid v = HBH_IsValid (restrict v).
+Proof. exact HBH_valid_restrict. Qed.
+Print Assumptions C01_HBH_valid_len_only.
+Theorem C01_ICMP_valid_len_only : forall v, wf v -> ICMP_IsValid v = ICMP_IsValid (restrict v).
+Proof. exact ICMP_valid_restrict. Qed.
+Print Assumptions C01_ICMP_valid_len_only.
+Theorem C01_NA_valid_len_only : forall v, wf v -> NA_IsValid v = NA_IsValid (restrict v).
+Proof. exact NA_valid_restrict. Qed.
+Print Assumptions C01_NA_valid_len_only.
+Theorem C01_NS_valid_len_only : forall v, wf v -> NS_IsValid v = NS_IsValid (restrict v).
+Proof. exact NS_valid_restrict. Qed.
+Print Assumptions C01_NS_valid_len_only.
+Theorem C01_Redirect6_valid_len_only : forall v, wf v -> Redirect6_IsValid v = Redirect6_IsValid (restrict v).
+Proof. exact Redirect6_valid_restrict. Qed.
+Print Assumptions C01_Redirect6_valid_len_only.
+Theorem C01_RA_valid_len_only : forall v, wf v -> RA_IsValid v = RA_IsValid (restrict v).
+Proof. exact RA_valid_restrict. Qed.
+Print Assumptions C01_RA_valid_len_only.
+Theorem C01_ICMPEcho_valid_len_only : forall v, wf v -> ICMPEcho_IsValid v = ICMPEcho_IsValid (restrict v).
+Proof. exact ICMPEcho_valid_restrict. Qed.
+Print Assumptions C01_ICMPEcho_valid_len_only.
+Theorem C01_IEEE1905_valid_len_only : forall v, wf v -> IEEE1905_IsValid v = IEEE1905_IsValid (restrict v).
+Proof. exact IEEE1905_valid_restrict. Qed.
+Print Assumptions C01_IEEE1905_valid_len_only.
+Theorem C01_IP4_valid_len_only : forall v, wf v -> IP4_IsValid v = IP4_IsValid (restrict v).
+Proof. exact IP4_valid_restrict. Qed.
+Print Assumptions C01_IP4_valid_len_only.
+Theorem C01_IP6_valid_len_only : forall v, wf v -> IP6_IsValid v = IP6_IsValid (restrict v).
+Proof. exact IP6_valid_restrict. Qed.
+Print Assumptions C01_IP6_valid_len_only.
+Theorem C01_RRCP_valid_len_only : forall v, wf v -> RRCP_IsValid v = RRCP_IsValid (restrict v).
+Proof. exact RRCP_valid_restrict. Qed.
+Print Assumptions C01_RRCP_valid_len_only.
+Theorem C01_SNAP_valid_len_only : forall v, wf v -> SNAP_IsValid v = SNAP_IsValid (restrict v).
+Proof. exact SNAP_valid_restrict. Qed.
+Print Assumptions C01_SNAP_valid_len_only.
+Theorem C01_TCP_valid_len_only : forall v, wf v -> TCP_IsValid v = TCP_IsValid (restrict v).
+Proof. exact TCP_valid_restrict. Qed.
+Print Assumptions C01_TCP_valid_len_only.
+Theorem C01_UDP_valid_len_only : forall v, wf v -> UDP_IsValid v = UDP_IsValid (restrict v).
+Proof. exact UDP_valid_restrict. Qed.
+Print Assumptions C01_UDP_valid_len_only.
+Theorem C01_U880a_valid_len_only : forall v, wf v -> U880a_IsValid v = U880a_IsValid (restrict v).
+Proof. exact U880a_valid_restrict. Qed.
+Print Assumptions C01_U880a_valid_len_only.
+Theorem C01_RS_valid_len_only : forall v, wf v -> RS_IsValid v = RS_IsValid (restrict v).
+Proof. exact RS_valid_restrict. Qed.
+Print Assumptions C01_RS_valid_len_only.
+Theorem C01_R4_valid_len_only : forall v, wf v -> R4_IsValid v = R4_IsValid (restrict v).
+Proof. exact R4_valid_restrict. Qed.
+Print Assumptions C01_R4_valid_len_only.
+Theorem C01_LLC_valid_len_only : forall v, wf v -> LLC_IsValid v = LLC_IsValid (restrict v).
+Proof. exact LLC_valid_restrict. Qed.
+Print Assumptions C01_LLC_valid_len_only.
+Theorem C01_LLDP_valid_len_only : forall v, wf v -> LLDP_IsValid v = LLDP_IsValid (restrict v).
+Proof. exact LLDP_valid_restrict. Qed.
+Print Assumptions C01_LLDP_valid_len_only.
+Theorem C01_valid_len_only : forall isvalid : slice -> res bool,
+  (forall v, wf v -> isvalid v = isvalid (restrict v)) ->
+  forall v v', wf v -> wf v' -> view v = view v' -> isvalid v = isvalid v'.
+Proof. exact valid_len_only. Qed.
+Print Assumptions C01_valid_len_only.
+
+(* the recorded Ether class is the whole defect: on a valid Ether view a getter fails C01 exactly on the class
+   (header-only frame with spare capacity, getter Payload) *)
+Theorem C01_Ether_known_exact : forall v, wf v -> bytes_ok (arr v) -> Ether_IsValid v = Ok true ->
+  Forall (fun ng => known_of Ether_findings (fst ng) v = true <-> ~ getter_ok v (snd ng)) Ether_getters.
+Proof. exact Ether_known_exact_C01. Qed.
+Print Assumptions C01_Ether_known_exact.
